@@ -17,7 +17,8 @@ def report (s : St) (sc : Sc) (oldS st : CState) (order : List Slot) : St × Lis
   let s3 := recordTransition s2 oldS st
   maybePublish s3 oldS st s2.aggr order
 
-structure Stages (R : St → St → Prop) : Prop where
+/-- the stages that neither complete a call nor report a connection state -/
+structure StagesA (R : St → St → Prop) : Prop where
   setAddrs : ∀ (s : St) (v : Nat), R s { s with addrs := v }
   setCfg : ∀ s : St, s.cfg = none → R s { s with cfg := some (initialCfg s.cfgIn) }
   setFail : ∀ (s : St) (n : Nat), R s { s with failN := n }
@@ -27,11 +28,13 @@ structure Stages (R : St → St → Prop) : Prop where
   addWaiter : ∀ (s : St) (w : Waiter), R s { s with waiters := s.waiters ++ [w] }
   dropWaiter : ∀ (s : St) (id : Nat), R s { s with waiters := s.waiters.filter fun x => x.id != id }
   addSubConn : ∀ s : St, R s (Pool.addSubConn s).1
-  refresh : ∀ (s : St) (slot : Slot), R s (Pool.refresh s slot).1
   updateAll : ∀ (s : St) (scs : List Sc), R s (Pool.updateAll s scs).1
   place : ∀ (s : St) (call : Nat) (slot : Slot) (cmd : Cmd) (loc : Loc) (key : String) (ctx : CtxKind) (dl : Option Int),
     R s (Pool.place s call slot cmd loc key ctx dl).1
   getReady : ∀ (s : St) (c : Cfg) (key : String), R s (getReadySubConnRef s c key).1
+
+structure Stages (R : St → St → Prop) : Prop extends StagesA R where
+  refresh : ∀ (s : St) (slot : Slot), R s (Pool.refresh s slot).1
   completeCall : ∀ (s : St) (call : Call), call ∈ s.calls → R s (Pool.completeCall s call)
   detReset : ∀ (s : St) (slot : Slot),
     R s (modRef s slot fun r => { r with lastResp := s.now, deCalls := 0, refreshCnt := 0 })
@@ -42,6 +45,11 @@ structure Stages (R : St → St → Prop) : Prop where
   swap : ∀ (s : St) (sc : Sc) (slot : Slot), lookup s.refreshingMap sc = some slot → R s (Pool.swap s sc slot).1
   report : ∀ (s : St) (sc : Sc) (oldS st : CState) (order : List Slot), stateOf s sc = some oldS →
     R s (Pool.report s sc oldS st order).1
+
+/-- … with reflexivity and transitivity -/
+structure LeavesA (R : St → St → Prop) : Prop extends StagesA R where
+  refl : ∀ s : St, R s s
+  trans : ∀ {a b c : St}, R a b → R b c → R a c
 
 structure Leaves (R : St → St → Prop) : Prop extends Stages R where
   refl : ∀ s : St, R s s
@@ -80,12 +88,14 @@ theorem Stages.and {I J : St → Prop} (S1 : Stages (Keeps I)) (S2 : Stages fun 
 
 variable {R : St → St → Prop}
 
-theorem lift_newSubConn (L : Leaves R) (s : St) : R s (newSubConn s).1 := by
+def Leaves.toA (L : Leaves R) : LeavesA R := { L.toStages.toStagesA with refl := L.refl, trans := L.trans }
+
+theorem lift_newSubConn (L : LeavesA R) (s : St) : R s (newSubConn s).1 := by
   unfold newSubConn; split
   · exact L.refl s
   · exact L.addSubConn s
 
-theorem lift_enforce (L : Leaves R) (s : St) (min fuel : Nat) : R s (enforceMinSize s min fuel).1 := by
+theorem lift_enforce (L : LeavesA R) (s : St) (min fuel : Nat) : R s (enforceMinSize s min fuel).1 := by
   induction fuel generalizing s with
   | zero => exact L.refl s
   | succ fuel ih =>
@@ -99,13 +109,13 @@ theorem lift_enforce (L : Leaves R) (s : St) (min fuel : Nat) : R s (enforceMinS
       | false => exact h
     · exact L.refl s
 
-theorem lift_ccsConfigure (L : Leaves R) (s : St) : R s (ccsConfigure s).1 := by
+theorem lift_ccsConfigure (L : LeavesA R) (s : St) : R s (ccsConfigure s).1 := by
   unfold ccsConfigure
   cases hc : s.cfg with
   | some c => exact L.refl s
   | none => exact L.trans (L.setCfg s hc) (lift_enforce L _ _ _)
 
-theorem lift_opCcs (L : Leaves R) (s : St) (ver : Nat) : R s (opCcs s ver).1 := by
+theorem lift_opCcs (L : LeavesA R) (s : St) (ver : Nat) : R s (opCcs s ver).1 := by
   unfold opCcs
   have h0 := L.setAddrs s ver
   have h1 := lift_ccsConfigure L { s with addrs := ver }
@@ -123,7 +133,7 @@ theorem lift_opCcs (L : Leaves R) (s : St) (ver : Nat) : R s (opCcs s ver).1 := 
     exact L.trans (L.trans (L.trans h0 h1) h2) h3
   · exact L.trans (L.trans h0 h1) h2
 
-theorem lift_getLeastBusy (L : Leaves R) (s : St) (c : Cfg) (l : List Slot) : R s (getLeastBusy s c l).1 := by
+theorem lift_getLeastBusy (L : LeavesA R) (s : St) (c : Cfg) (l : List Slot) : R s (getLeastBusy s c l).1 := by
   unfold getLeastBusy
   cases leastBusy s l with
   | none => exact L.refl s
@@ -135,7 +145,7 @@ theorem lift_getLeastBusy (L : Leaves R) (s : St) (c : Cfg) (l : List Slot) : R 
       · exact lift_newSubConn L s
       · exact L.refl s
 
-theorem lift_chooseSlot (L : Leaves R) (s : St) (c : Cfg) (l : List Slot) (key : String) :
+theorem lift_chooseSlot (L : LeavesA R) (s : St) (c : Cfg) (l : List Slot) (key : String) :
     R s (chooseSlot s c l key).1 := by
   unfold chooseSlot
   split
@@ -147,7 +157,7 @@ theorem lift_chooseSlot (L : Leaves R) (s : St) (c : Cfg) (l : List Slot) (key :
     | false => exact L.trans h1 (lift_getLeastBusy L s1 c l)
   · exact lift_getLeastBusy L s c l
 
-theorem lift_finishPick (L : Leaves R) (s : St) (r : Option Slot) (ev : List Event) (call : Nat) (cmd : Cmd)
+theorem lift_finishPick (L : LeavesA R) (s : St) (r : Option Slot) (ev : List Event) (call : Nat) (cmd : Cmd)
     (loc : Loc) (key : String) (ctx : CtxKind) (dl : Option Int) :
     R s (finishPick s r ev call cmd loc key ctx dl).1 := by
   unfold finishPick
@@ -160,7 +170,7 @@ theorem lift_finishPick (L : Leaves R) (s : St) (r : Option Slot) (ev : List Eve
     obtain ⟨s1, o⟩ := p
     cases o <;> exact this
 
-theorem lift_opPick (L : Leaves R) (s : St) (call pn : Nat) (m : String) (ctx : CtxKind) (dl : Option Int)
+theorem lift_opPick (L : LeavesA R) (s : St) (call pn : Nat) (m : String) (ctx : CtxKind) (dl : Option Int)
     (req : Req) : R s (opPick s call pn m ctx dl req).1 := by
   unfold opPick
   split
@@ -251,7 +261,7 @@ theorem lift_opDone (L : Leaves R) (s : St) (callId : Nat) (err : ErrKind) (repl
       · exact L.trans h1 h2
       · exact L.trans (L.trans h1 h2) (lift_applyBindings L s2 call reply)
 
-theorem lift_opCtxDone (L : Leaves R) (s : St) (callId : Nat) : R s (opCtxDone s callId).1 := by
+theorem lift_opCtxDone (L : LeavesA R) (s : St) (callId : Nat) : R s (opCtxDone s callId).1 := by
   unfold opCtxDone
   cases s.waiters.find? (fun w => w.id == callId) with
   | none => exact L.refl s
@@ -263,7 +273,7 @@ theorem lift_opCtxDone (L : Leaves R) (s : St) (callId : Nat) : R s (opCtxDone s
     obtain ⟨s1, o⟩ := r
     cases o <;> exact hp
 
-theorem lift_wake (L : Leaves R) (s : St) : R s (wakeWaiters s).1 := by
+theorem lift_wake (L : LeavesA R) (s : St) : R s (wakeWaiters s).1 := by
   unfold wakeWaiters
   suffices hs : ∀ (ws : List Waiter) (acc : St × List Event), R s acc.1 →
       R s (ws.foldl (fun (acc : St × List Event) w =>
@@ -327,20 +337,52 @@ theorem lift_opScs (L : Leaves R) (s : St) (sc : Sc) (st : CState) (order : List
 
 theorem lift_stepCore (L : Leaves R) (s : St) (op : Op) : R s (stepCore s op).1 := by
   cases op with
-  | ccs ver => exact lift_opCcs L s ver
+  | ccs ver => exact lift_opCcs L.toA s ver
   | reserr => exact L.refl s
   | scs sc st order => exact lift_opScs L s sc st order
   | factory n => exact L.setFail s n
   | adv ns => exact L.setNow s ns
-  | pick call pn m ctx dl req => exact lift_opPick L s call pn m ctx dl req
-  | ctxdone call => exact lift_opCtxDone L s call
+  | pick call pn m ctx dl req => exact lift_opPick L.toA s call pn m ctx dl req
+  | ctxdone call => exact lift_opCtxDone L.toA s call
   | done call err reply => exact lift_opDone L s call err reply
   | pickHold call pn m ctx dl req =>
     exact opPickHold_cases (R s) s call pn m ctx dl req (L.refl s) (fun hl => L.setHeld s hl)
-      (lift_opPick L s call pn m ctx dl req)
+      (lift_opPick L.toA s call pn m ctx dl req)
   | resume call =>
     exact opResume_cases (R s) s call (L.refl s) (fun hl => L.setHeld s hl)
-      (fun hl _ _ _ => L.trans (L.setHeld s hl) (lift_newSubConn L _))
+      (fun hl _ _ _ => L.trans (L.setHeld s hl) (lift_newSubConn L.toA _))
+
+/-- operations that neither complete a call nor report a connection state only use the `StagesA` -/
+def quietOp : Op → Prop
+  | .scs .. => False
+  | .done .. => False
+  | _ => True
+
+theorem lift_quiet (L : LeavesA R) (s : St) (op : Op) (hq : quietOp op) : R s (step s op).1 := by
+  have h1 : R s (stepCore s op).1 := by
+    cases op with
+    | ccs ver => exact lift_opCcs L s ver
+    | reserr => exact L.refl s
+    | scs sc st order => exact absurd hq (by simp [quietOp])
+    | factory n => exact L.setFail s n
+    | adv ns => exact L.setNow s ns
+    | pick call pn m ctx dl req => exact lift_opPick L s call pn m ctx dl req
+    | ctxdone call => exact lift_opCtxDone L s call
+    | done call err reply => exact absurd hq (by simp [quietOp])
+    | pickHold call pn m ctx dl req =>
+      exact opPickHold_cases (R s) s call pn m ctx dl req (L.refl s) (fun hl => L.setHeld s hl)
+        (lift_opPick L s call pn m ctx dl req)
+    | resume call =>
+      exact opResume_cases (R s) s call (L.refl s) (fun hl => L.setHeld s hl)
+        (fun hl _ _ _ => L.trans (L.setHeld s hl) (lift_newSubConn L _))
+  unfold step
+  generalize stepCore s op = r at h1 ⊢
+  obtain ⟨s1, ev⟩ := r
+  have h2 := lift_wake L s1
+  simp only at h1 h2 ⊢
+  generalize wakeWaiters s1 = r2 at h2 ⊢
+  obtain ⟨s2, ev2⟩ := r2
+  exact L.trans h1 h2
 
 /-- a relation that holds across every primitive stage holds across every operation -/
 theorem lift_step (L : Leaves R) (s : St) (op : Op) : R s (step s op).1 := by
@@ -348,7 +390,7 @@ theorem lift_step (L : Leaves R) (s : St) (op : Op) : R s (step s op).1 := by
   unfold step
   generalize stepCore s op = r at h1 ⊢
   obtain ⟨s1, ev⟩ := r
-  have h2 := lift_wake L s1
+  have h2 := lift_wake L.toA s1
   simp only at h1 h2 ⊢
   generalize wakeWaiters s1 = r2 at h2 ⊢
   obtain ⟨s2, ev2⟩ := r2
